@@ -206,8 +206,17 @@ func pipelineCases(t *testing.T, rnd *rand.Rand, gauges bool, yield func(vt.Case
 		c := vt.Case{"base": bases[rnd.Intn(len(bases))], "nc1": 0, "nc2": 0, "seek": -1}
 		mk := func(size int, iv int64) map[string]any {
 			ts, vs, ks := randomSeriesIv(rnd, size, rnd.Int63n(3*res1h), iv, rnd.Intn(10), rnd.Intn(5), gen())
-			if len(ks) > 0 && ks[0] != "F" { // a series needs one number to exist in the downsampled block
+			if len(ks) > 0 && ks[0] != "F" { // the first series of a block always has a number
 				ks[0], vs[0] = "F", 7
+			}
+			return map[string]any{"ts": ts, "vs": vs, "ks": ks}
+		}
+		// a series made of NaN and stale markers only: nothing to aggregate (the downsampled
+		// blocks do not carry it)
+		mkNaN := func(size int) map[string]any {
+			ts, vs, ks := randomSeriesIv(rnd, size, rnd.Int63n(3*res1h), 0, 0, 0, func(int) int { return 0 })
+			for k := range ks {
+				ks[k] = []string{"NaN", "STALE"}[rnd.Intn(2)]
 			}
 			return map[string]any{"ts": ts, "vs": vs, "ks": ks}
 		}
@@ -225,6 +234,9 @@ func pipelineCases(t *testing.T, rnd *rand.Rand, gauges bool, yield func(vt.Case
 			ss := make([]any, ns)
 			for k := range ss {
 				ss[k] = mk(1+rnd.Intn(vt.Pick(1200, 2500)), 0)
+				if k > 0 && rnd.Intn(5) == 0 {
+					ss[k] = mkNaN(1 + rnd.Intn(300))
+				}
 			}
 			c["series"] = ss
 		}
@@ -262,6 +274,7 @@ func randomSeriesIv(rnd *rand.Rand, n int, start, iv int64, pNaN, pStale int, ge
 // runPipeline executes one case and returns the observation.
 func runPipeline(c vt.Case) (ev vt.Event) {
 	ev = vt.Event{"obs": []any{}, "ok": true, "aligned": true, "msg": "", "blk1": []int{0, 0}, "hasblk": false,
+		"blocks": map[string]any{"src": blockInfo{}.rec(0, &okFlag{}), "b1": blockInfo{}.rec(0, &okFlag{}), "b2": blockInfo{}.rec(0, &okFlag{})},
 		"got": map[string]any{"kind": "ok", "msg": ""}}
 	defer func() {
 		if r := recover(); r != nil {
@@ -276,7 +289,7 @@ func runPipeline(c vt.Case) (ev vt.Event) {
 		seek += base
 	}
 	var l1, l2 [][]chunks.Meta
-	var cleanup func()
+	var binfo *blockRun
 	switch vt.Str(c["mode"]) {
 	case "loop":
 		ts, vs := rawOfSeries(base, series[0])
@@ -322,9 +335,7 @@ func runPipeline(c vt.Case) (ev vt.Event) {
 		}
 		l1, l2 = [][]chunks.Meta{m1}, [][]chunks.Meta{m2}
 	default:
-		var err error
-		var blk1 [2]int64
-		l1, l2, blk1, cleanup, err = blockPipeline(base, series)
+		run, cleanup, err := blockPipeline(base, series)
 		if cleanup != nil {
 			defer cleanup()
 		}
@@ -332,16 +343,22 @@ func runPipeline(c vt.Case) (ev vt.Event) {
 			ev["got"] = map[string]any{"kind": "error", "msg": err.Error()}
 			return ev
 		}
+		l1, l2, binfo = run.l1, run.l2, &run
 		o := &okFlag{ok: true}
-		ev["blk1"] = []int{o.off(blk1[0], base), o.off(blk1[1], base)}
+		ev["blk1"] = []int{o.off(run.b1.mint, base), o.off(run.b1.maxt-1, base)}
 		ev["hasblk"] = true
+		ev["blocks"] = map[string]any{"src": run.src.rec(base, o), "b1": run.b1.rec(base, o), "b2": run.b2.rec(base, o)}
 		if !o.ok {
 			ev["ok"] = false
 		}
 	}
 	obs := make([]any, len(series))
 	for i := range series {
-		rec := map[string]any{}
+		rec := map[string]any{"in1": len(l1[i]) > 0, "in2": len(l2[i]) > 0, "lbl1": true, "lbl2": true}
+		if binfo != nil {
+			rec["in1"], rec["in2"] = binfo.b1.present[i], binfo.b2.present[i]
+			rec["lbl1"], rec["lbl2"] = binfo.b1.lblok[i] || !binfo.b1.present[i], binfo.b2.lblok[i] || !binfo.b2.present[i]
+		}
 		for lvl, metas := range [][]chunks.Meta{l1[i], l2[i]} {
 			name := []string{"c1", "c2"}[lvl]
 			recs, ok, aligned, msg := decodeChunks(metas, base)
@@ -386,16 +403,37 @@ func rawOfSeries(base int64, s any) ([]int64, []float64) {
 }
 
 func seriesLabels(i int) labels.Labels {
-	return labels.FromStrings("__name__", "m", "i", strconv.Itoa(i))
+	return labels.FromStrings("__name__", "m", "i", strconv.Itoa(i), "job", "j"+strconv.Itoa(i*7%5), "zone", "z")
+}
+
+// blockInfo is what is observed of one block besides its chunks.
+type blockInfo struct {
+	res, mint, maxt int64
+	nseries         int   // series in the index
+	present         []bool // per input series: in the index
+	lblok           []bool // per input series: labels identical to the source series' labels
+	extra           int    // series whose labels match no input series
+	metaSeries      uint64 // meta.json stats
+}
+
+func (b blockInfo) rec(base int64, o *okFlag) map[string]any {
+	return map[string]any{"res": int(b.res), "mint": o.off(b.mint, base), "maxt": o.off(b.maxt, base),
+		"nseries": b.nseries, "extra": b.extra, "statseries": int(b.metaSeries)}
+}
+
+type blockRun struct {
+	l1, l2         [][]chunks.Meta
+	src, b1, b2    blockInfo
+	srcID, id1, id2 string
 }
 
 // blockPipeline: raw TSDB block -> Downsample(5 m) -> Downsample(1 h); returns per input series
-// the chunk metas (with chunks loaded) of both downsampled blocks.
-func blockPipeline(base int64, series []any) (l1, l2 [][]chunks.Meta, blk1 [2]int64, cleanup func(), err error) {
+// the chunk metas (with chunks loaded) of both downsampled blocks and the blocks' metadata.
+func blockPipeline(base int64, series []any) (run blockRun, cleanup func(), err error) {
 	root := os.Getenv("VERIF_SCRATCH")
 	dir, err := os.MkdirTemp(root, "dsblk")
 	if err != nil {
-		return nil, nil, blk1, nil, err
+		return run, nil, err
 	}
 	var closers []io.Closer
 	cleanup = func() {
@@ -407,12 +445,11 @@ func blockPipeline(base int64, series []any) (l1, l2 [][]chunks.Meta, blk1 [2]in
 	slogger := slog.New(slog.NewTextHandler(io.Discard, nil))
 	var in []storage.Series
 	for i, s := range series {
-		ts, vs := rawOfSeries(base, s)
-		in = append(in, storage.NewListSeries(seriesLabels(i), tsdbSamples(ts, vs)))
+		in = append(in, inputSeries(base, i, s))
 	}
 	rawDir, err := tsdb.CreateBlock(in, dir, int64(1)<<42, slogger)
 	if err != nil {
-		return nil, nil, blk1, cleanup, fmt.Errorf("create raw block: %w", err)
+		return run, cleanup, fmt.Errorf("create raw block: %w", err)
 	}
 	meta, err := metadata.InjectThanos(log.NewNopLogger(), rawDir, metadata.Thanos{
 		Labels:     map[string]string{"ext": "1"},
@@ -420,77 +457,91 @@ func blockPipeline(base int64, series []any) (l1, l2 [][]chunks.Meta, blk1 [2]in
 		Source:     metadata.TestSource,
 	}, nil)
 	if err != nil {
-		return nil, nil, blk1, cleanup, err
+		return run, cleanup, err
 	}
-	step := func(m *metadata.Meta, bdir string, res int64) (*metadata.Meta, string, [][]chunks.Meta, error) {
+	run.src = blockInfo{res: meta.Thanos.Downsample.Resolution, mint: meta.MinTime, maxt: meta.MaxTime, nseries: int(meta.Stats.NumSeries), metaSeries: meta.Stats.NumSeries}
+	step := func(m *metadata.Meta, bdir string, res int64) (*metadata.Meta, string, [][]chunks.Meta, blockInfo, error) {
+		var bi blockInfo
 		b, err := tsdb.OpenBlock(slogger, bdir, downsample.NewPool(), tsdb.DefaultPostingsDecoderFactory)
 		if err != nil {
-			return nil, "", nil, err
+			return nil, "", nil, bi, err
 		}
 		id, err := downsample.Downsample(context.Background(), log.NewNopLogger(), m, b, dir, res)
 		cerr := b.Close()
 		if err != nil {
-			return nil, "", nil, fmt.Errorf("downsample to %d: %w", res, err)
+			return nil, "", nil, bi, fmt.Errorf("downsample to %d: %w", res, err)
 		}
 		if cerr != nil {
-			return nil, "", nil, cerr
+			return nil, "", nil, bi, cerr
 		}
 		ndir := filepath.Join(dir, id.String())
 		nm, err := metadata.ReadFromDir(ndir)
 		if err != nil {
-			return nil, "", nil, err
+			return nil, "", nil, bi, err
 		}
-		metas, err := readBlock(ndir, len(series), &closers)
-		return nm, ndir, metas, err
+		metas, bi, err := readBlock(ndir, len(series), &closers)
+		bi.res, bi.mint, bi.maxt, bi.metaSeries = nm.Thanos.Downsample.Resolution, nm.MinTime, nm.MaxTime, nm.Stats.NumSeries
+		return nm, ndir, metas, bi, err
 	}
-	m1, d1, l1, err := step(meta, rawDir, res5m)
+	m1, d1, l1, b1, err := step(meta, rawDir, res5m)
 	if err != nil {
-		return nil, nil, blk1, cleanup, err
+		return run, cleanup, err
 	}
-	blk1 = [2]int64{m1.MinTime, m1.MaxTime - 1}
-	_, _, l2, err = step(m1, d1, res1h)
+	run.l1, run.b1 = l1, b1
+	_, _, l2, b2, err := step(m1, d1, res1h)
 	if err != nil {
-		return nil, nil, blk1, cleanup, err
+		return run, cleanup, err
 	}
-	return l1, l2, blk1, cleanup, nil
+	run.l2, run.b2 = l2, b2
+	return run, cleanup, nil
+}
+
+func inputSeries(base int64, i int, s any) storage.Series {
+	ts, vs := rawOfSeries(base, s)
+	return storage.NewListSeries(seriesLabels(i), tsdbSamples(ts, vs))
 }
 
 // readBlock returns, per series label i, the chunk metas with their chunks loaded.
-func readBlock(bdir string, n int, closers *[]io.Closer) ([][]chunks.Meta, error) {
+func readBlock(bdir string, n int, closers *[]io.Closer) ([][]chunks.Meta, blockInfo, error) {
+	bi := blockInfo{present: make([]bool, n), lblok: make([]bool, n)}
 	ir, err := index.NewFileReader(filepath.Join(bdir, "index"), index.DecodePostingsRaw)
 	if err != nil {
-		return nil, err
+		return nil, bi, err
 	}
 	*closers = append(*closers, ir)
 	cr, err := chunks.NewDirReader(filepath.Join(bdir, "chunks"), downsample.NewPool())
 	if err != nil {
-		return nil, err
+		return nil, bi, err
 	}
 	*closers = append(*closers, cr)
 	k, v := index.AllPostingsKey()
 	p, err := ir.Postings(context.Background(), k, v)
 	if err != nil {
-		return nil, err
+		return nil, bi, err
 	}
 	out := make([][]chunks.Meta, n)
 	for p.Next() {
 		var b labels.ScratchBuilder
 		var chks []chunks.Meta
 		if err := ir.Series(p.At(), &b, &chks); err != nil {
-			return nil, err
+			return nil, bi, err
 		}
+		bi.nseries++
 		i, err := strconv.Atoi(b.Labels().Get("i"))
-		if err != nil || i < 0 || i >= n {
-			return nil, fmt.Errorf("unexpected series %s", b.Labels())
+		if err != nil || i < 0 || i >= n || bi.present[i] {
+			bi.extra++
+			continue
 		}
+		bi.present[i] = true
+		bi.lblok[i] = labels.Equal(b.Labels(), seriesLabels(i))
 		for j := range chks {
 			c, _, err := cr.ChunkOrIterable(chks[j])
 			if err != nil {
-				return nil, err
+				return nil, bi, err
 			}
 			chks[j].Chunk = c
 		}
 		out[i] = chks
 	}
-	return out, p.Err()
+	return out, bi, p.Err()
 }
